@@ -58,7 +58,13 @@ func (t c14table) encode() (stream []byte, rowEnds []int) {
 func c14gen(rng *core.Rng, small bool) c14table {
 	t := c14table{Trailer: rng.Intn(3) != 0}
 	nc := 1 + rng.Intn(12)
+	if rng.Intn(30) == 0 {
+		nc = core.Pick(rng, []int{100, 255, 256, 1000})
+	}
 	nr := rng.Intn(51)
+	if nc >= 100 {
+		nr = rng.Intn(4)
+	}
 	if small {
 		nc, nr = 1+rng.Intn(3), rng.Intn(4)
 	}
